@@ -78,6 +78,7 @@ func (fr *Frame) execMakeMap(x *ssa.MakeMap) {
 	l := c.mapLenHeap(fr.st)
 	c.setMapHeap(fr.st, "ML", sto(l, m, tInt(0)))
 	fr.vals[x] = m
+	fr.registerPrivate(x, m)
 }
 
 func (fr *Frame) execMapUpdate(x *ssa.MapUpdate) {
